@@ -64,7 +64,7 @@ ApplyToT(S, o, dup, lg) ==
        /\ Refused("ValueError")                                          \* non-unique identifiers
     \* identifiers are compared among the inputs still to be processed: the docstring does not say
     \* whether a list whose duplicated identifier is already stored is refused - both are allowed
-    \/ /\ S # {} /\ dup # 0 /\ Skipped(dup)
+    \/ /\ S # {} /\ dup # 0 /\ Skipped(dup) /\ nrun < MaxRuns   \* (explored where accepting is explored too)
        /\ \A i \in Inputs : (o[i] = "-") <=> (i \notin Todo(S))
        /\ Refused("ValueError")
     \/ /\ S # {} /\ (dup = 0 \/ Skipped(dup)) /\ nrun < MaxRuns
